@@ -368,8 +368,28 @@ func c01GenProgN(r *VRand, stats *VStats, n int, filler int) *c01Prog {
 		if r.Chance(0.15) {
 			nc = 4 + r.Intn(3)
 		}
+		if filler > 0 && nc < 2 {
+			nc = 2 // no single-condition rules in large programs: neighbours must not be merged (below)
+		}
 		for j := 0; j < nc; j++ {
-			ru.conds = append(ru.conds, c01GenCond(r, stats, p))
+			c := c01GenCond(r, stats, p)
+			if filler > 0 {
+				// Large programs probe the match-set limit, so the number of match sets the model derives
+				// from the typed program must be the number the builder emits: no rule merging (every rule
+				// has >= 2 conditions) and no textually repeated value (DeduplicateParamsOptimizer drops it).
+				for gi := range c.groups {
+					seen := map[string]bool{}
+					var vs []c01Val
+					for _, v := range c.groups[gi].vals {
+						if !seen[v.text] {
+							seen[v.text] = true
+							vs = append(vs, v)
+						}
+					}
+					c.groups[gi].vals = vs
+				}
+			}
+			ru.conds = append(ru.conds, c)
 		}
 		if r.Chance(0.12) {
 			ru.mustRules = true
@@ -618,7 +638,7 @@ func TestVerifC01(t *testing.T) {
 		if pi < nLarge {
 			// "up to the match-set limit": ≈ 2 match sets per filler rule, so the ordinary rules at the
 			// end (domain / ip / mac sets among them) sit just below, across and just above position 1024
-			p = c01GenProgN(r, stats, 12+r.Intn(12), []int{300, 380, 420, 440, 460, 470, 480, 490, 500, 512}[r.Intn(10)])
+			p = c01GenProgN(r, stats, 12+r.Intn(12), []int{300, 380, 420, 440, 460, 470, 480, 490, 495, 500}[r.Intn(10)])
 			stats.Inc("prog.large")
 		} else {
 			p = c01GenProg(r, stats, mr)
@@ -650,6 +670,9 @@ func TestVerifC01(t *testing.T) {
 			}
 			b, err := NewRoutingMatcherBuilderFromProgram(log, program, name2id, nil)
 			if err != nil {
+				if p.aimFrom > 0 {
+					return "err:build" // large program: the model predicts exactly when (more than MaxMatchSetLen match sets)
+				}
 				return "err:builder:" + err.Error()
 			}
 			m, err := b.BuildUserspace()
